@@ -231,6 +231,29 @@ def rand_bypass_nfa(rng):
                 final_states=finals)
 
 
+def rand_two_route_nfa(rng):
+    """Two routes between the same pair of states: one reading symbols through a state s (with an optional last
+    step: parallel symbol and empty-string edges), one consisting of empty-string edges through a state t. The
+    label produced when the first state is ripped ends in an option mark that covers only its last atom, and the
+    second rip must then make the WHOLE label optional - the composition rule for an empty concatenation."""
+    sigma = rng.choice(["ab", "abc", "abcd"])
+    order = [0, 1, 2, 3]
+    if rng.random() < 0.4:
+        rng.shuffle(order)
+    qi, s_, t_, qj = order
+    x, y = rng.choice(sigma), rng.choice(sigma)
+    edges = {(qi, x, s_), (s_, y, qj), (qi, "", t_), (t_, "", qj)}
+    if rng.random() < 0.8:
+        edges.add((s_, "", qj))                      # y? on the second leg
+    if rng.random() < 0.4:
+        edges.add((qi, rng.choice(sigma), s_))       # (x|z) on the first leg
+    if rng.random() < 0.3:
+        edges.add((qj, rng.choice(sigma), qi))       # a cycle back
+    if rng.random() < 0.2:
+        edges.add((qj, rng.choice(sigma), qj))
+    return _nfa(4, sigma, sorted(edges), {qj} | ({qi} if rng.random() < 0.15 else set()), init=qi)
+
+
 def run(ctx):
     ctx.rule = RULE
     rng = ctx.rng
@@ -243,8 +266,10 @@ def run(ctx):
         r = rng.random()
         if r < 0.35:
             kind, sdef = "dfa", gen.rand_dfa_def(rng, nmax=5)
-        elif r < 0.75:
+        elif r < 0.65:
             kind, sdef = "nfa", gen.rand_nfa_def(rng, nmax=5, p_eps=rng.choice([0.0, 0.3, 0.5, 0.8]))
+        elif r < 0.78:
+            kind, sdef = "nfa", rand_two_route_nfa(rng)
         else:
             kind, sdef = "nfa", rand_bypass_nfa(rng)
         if not nonempty_def(kind, sdef):
